@@ -15,6 +15,7 @@ import vlib
 
 MODULE = "TraceNumeric"
 JVMS = int(os.environ.get("VERIF_NUM_JVMS", "8"))
+KEEP = 2
 
 
 def _stats(ck, files, key):
@@ -29,8 +30,8 @@ def _stats(ck, files, key):
             un += s["undecided"]
         except (OSError, ValueError, KeyError):
             pass
-    ck.cov.setdefault("numeric", {})[key] = {"events_judged": ev, "obligations_evaluated": ob,
-                                             "undecided_obligations": un}
+    ck.cov.setdefault("numeric", {}).setdefault(key, {}).update(
+        {"events_judged": ev, "obligations_evaluated": ob, "undecided_obligations": un})
 
 
 def _run(ck, owner, plan, key):
@@ -45,6 +46,26 @@ def _run(ck, owner, plan, key):
         cmds.append(" ".join(map(str, res["cmd"])))
     ck.sample_from(files[:2], n=2)
     results = vlib.validate(MODULE, files, acts=[owner], jobs=JVMS)
+    # measured failure counts per obligation name; only the first KEEP failures of every name are handed to the
+    # framework (it re-reads the chunk file for every failure it turns into a violation)
+    counts, kept = {}, {}
+    for r in results:
+        fails = []
+        for idx, pairs in r["fails"]:
+            keep = False
+            for p_, name in pairs:
+                if p_ != owner:
+                    continue
+                counts[name] = counts.get(name, 0) + 1
+                if kept.get(name, 0) < KEEP:
+                    kept[name] = kept.get(name, 0) + 1
+                    keep = True
+            if keep:
+                fails.append((idx, pairs))
+        if r["fails"] and not fails:
+            fails = r["fails"][:1]
+        r["fails"] = fails
+    ck.cov.setdefault("numeric", {}).setdefault(key, {})["failed_obligations"] = dict(sorted(counts.items()))
     n0 = len(ck.violations)
     ck.add_validation(results, driver_cmd=cmds, owner=owner)
     for v in ck.violations[n0:]:
